@@ -14,6 +14,14 @@ transpose of the primal mode with the dual method.  Then, implementation against
 ``derivative`` of the constant-padded affine variant == zero-padded operator, in-place ==
 out-of-place, ``is_linear`` == (offset is zero).
 
+History forms (every operator state, also for ``.adjoint`` and ``.derivative``): (a) the
+out-of-place results of all basis vectors are kept as returned OBJECTS and read again only after
+the last call - they must still be what they were when returned (``kept_result_changed``);
+(b) the one operator object that served all of the above is then driven through the sequence
+in-place (non-zero buffer) / out-of-place / in-place into the same, previously used buffer / ...
+and every result must equal that of a freshly built operator (``history_differs_from_fresh``);
+(c) the same for ``op.adjoint`` obtained once and reused.
+
 Arithmetic: for dyadic cell sides (1, 1/2, 1/4, 2) every quantity is a small dyadic rational, so
 equality is demanded to the last bit (float32 included).  For the non-dyadic cell sides
 (0.3, 0.7, 1.3) the tolerance is 4 * eps(dtype) * (largest magnitude of the compared reference).
@@ -288,7 +296,10 @@ def _scale(M, b, x=None):
 # ------------------------------------------------------------------------------------------
 # images of an odl operator
 
-def _apply(op, dom, flat, inplace, ran, rec, what):
+def _apply(op, dom, flat, inplace, ran, rec, what, keep=None):
+    """One execution; returns a flat COPY of the result taken immediately.  With ``keep`` (a
+    list) the returned element OBJECT of an out-of-place call is also kept, together with
+    that copy, so that the caller can look at it again after later calls (history form)."""
     x = S.from_flat(dom, flat)
     x0 = S.to_flat(x)
     try:
@@ -303,7 +314,10 @@ def _apply(op, dom, flat, inplace, ran, rec, what):
                         '%s(x, out=out) returned another object' % what)
             y = S.to_flat(out)
         else:
-            y = S.to_flat(op(x))
+            r = op(x)
+            y = S.to_flat(r)
+            if keep is not None:
+                keep.append((r, y, flat))
     except Exception as e:        # noqa: B902
         raise LibErr('%s(x%s) x=%s' % (what, ', out=out' if inplace else '', _fmt(flat)), e)
     rec.evals += 1
@@ -318,18 +332,87 @@ def _images(op, rec, what, inplace=False):
     n = S.flat_size(dom)
     dt = S.dtype_of(dom)
     cols, icols = [], []
+    keep = None if inplace else []
     for k in range(n):
         e = np.zeros(n, dtype=dt)
         e[k] = 1
-        cols.append(_apply(op, dom, e, inplace, ran, rec, what))
+        cols.append(_apply(op, dom, e, inplace, ran, rec, what, keep))
         if S.is_complex(dom):
             e = np.zeros(n, dtype=dt)
             e[k] = 1j
-            icols.append(_apply(op, dom, e, inplace, ran, rec, what))
-    y0 = _apply(op, dom, np.zeros(n, dtype=dt), inplace, ran, rec, what)
+            icols.append(_apply(op, dom, e, inplace, ran, rec, what, keep))
+    y0 = _apply(op, dom, np.zeros(n, dtype=dt), inplace, ran, rec, what, keep)
     Y = np.stack(cols, axis=1)
     Yi = np.stack(icols, axis=1) if icols else None
+    _check_kept(rec, what, keep)
     return Y, Yi, y0
+
+
+def _check_kept(rec, what, keep):
+    """History form (a): the matrix assembled from the returned OBJECTS, looked at only after
+    the last call, must be the matrix assembled from immediate copies (which is the one
+    compared with the reference stencil): a result once returned stays what it was."""
+    for i, (r, y, flat) in enumerate(keep or ()):
+        now = S.to_flat(r)
+        if not np.array_equal(now, y, equal_nan=True):
+            rec.bad('kept_result_changed',
+                    'the element returned by out-of-place call #%d of one %s object, x=%s, was '
+                    '%s when returned and is %s after %d later out-of-place calls of the same '
+                    'object' % (i, what, _fmt(flat), _fmt(y), _fmt(now), len(keep) - 1 - i))
+            break
+
+
+def _history(rec, what, op, fresh, exact, eps, cplx):
+    """History forms (b)/(c): ONE operator object (``op``: the operator, or its adjoint obtained
+    once) is used in place into a non-zero buffer, out of place, in place into the SAME, now
+    previously used buffer, ... ; every result must be what a freshly built operator
+    (``fresh()``) returns for that input, and kept out-of-place results must stay valid."""
+    dom, ran = op.domain, op.range
+    nd = S.flat_size(dom)
+    dt = S.dtype_of(dom)
+    ps = _probes(nd, cplx)
+    e0 = np.zeros(nd)
+    e0[0] = 1
+    xs = [ps[0].astype(dt), ps[1].astype(dt), e0.astype(dt)]
+    g = np.full(S.flat_size(ran), GARBAGE, dtype=S.dtype_of(ran))
+    buf = S.from_flat(ran, g * (1 - 0.5j) if S.is_complex(ran) else g)
+    # (input index, in place?)
+    plan = [(0, True), (1, False), (2, True), (0, False), (1, True), (2, False), (0, True)]
+    keep = []
+    got = []
+    try:
+        for i, inplace in plan:
+            x = S.from_flat(dom, xs[i])
+            if inplace:
+                r = op(x, out=buf)
+                if r is not buf:
+                    rec.bad('returned_object_is_not_out', '%s(x, out=buf)' % what)
+                got.append(S.to_flat(buf))
+            else:
+                r = op(x)
+                y = S.to_flat(r)
+                keep.append((r, y, xs[i]))
+                got.append(y)
+            rec.evals += 1
+        want = []
+        for i in range(len(xs)):
+            want.append(S.to_flat(fresh()(S.from_flat(dom, xs[i]))))
+            rec.evals += 1
+    except Exception as e:        # noqa: B902
+        raise LibErr('%s, call sequence on one object' % what, e)
+    for step, ((i, inplace), y) in enumerate(zip(plan, got)):
+        w = want[i].astype(np.clongdouble if np.iscomplexobj(want[i]) else np.longdouble)
+        sc = max(float(np.max(np.abs(want[i]))) if want[i].size else 0.0, 1e-300)
+        if _mismatch(y, w, exact, eps, sc) is not None:
+            rec.bad('history_differs_from_fresh',
+                    'one %s object, calls %s (i = in place into the same reused buffer, first '
+                    'prefilled with %s; o = out of place): step %d (%s, x=%s) gave %s, a freshly '
+                    'built operator gives %s'
+                    % (what, ''.join('i' if q else 'o' for _, q in plan), GARBAGE, step,
+                       'in place' if inplace else 'out of place', _fmt(xs[i]), _fmt(y),
+                       _fmt(want[i])))
+            break
+    _check_kept(rec, what + ' (mixed in-place / out-of-place sequence)', keep)
 
 
 def _compare_images(rec, symptom, what, imgs, M, b, exact, eps):
@@ -402,6 +485,7 @@ def _check_operator(rec, cfg, build, M, b, affine, exact, eps, dual_div=None):
                 % (op.is_linear, name, _fmt(y0), _fmt(b)))
     # 5. adjoint == transpose (uniformly weighted spaces with equal weights)
     wd, wr = _uniform_weight(dom), _uniform_weight(ran)
+    adj_once = None
     if affine:
         # "operator with nonzero pad_const is not linear and has no adjoint"
         rec.skipped += 1
@@ -412,6 +496,7 @@ def _check_operator(rec, cfg, build, M, b, affine, exact, eps, dual_div=None):
         if adj.domain != ran or adj.range != dom:
             rec.bad('adjoint_spaces_wrong', 'adjoint maps %r -> %r' % (adj.domain, adj.range))
         else:
+            adj_once = adj
             A, Ai, a0 = _images(adj, rec, name + '.adjoint')
             T = np.conj(Y.T).astype(np.clongdouble if np.iscomplexobj(Y) else np.longdouble)
             z = np.zeros(nd)
@@ -469,6 +554,12 @@ def _check_operator(rec, cfg, build, M, b, affine, exact, eps, dual_div=None):
         _compare_images(rec, 'derivative_not_zero_padded', '%s.derivative(%s)' % (name, lab),
                         _images(der, rec, name + '.derivative'), M, np.zeros(nr, dtype=b.dtype),
                         exact, eps)
+    # 7. history: the one operator object (used above for everything, its adjoint and
+    # derivative built and used in between) and its adjoint obtained once, in a mixed
+    # in-place / out-of-place sequence with a reused buffer, against freshly built operators
+    _history(rec, name, op, build, exact, eps, cplx)
+    if adj_once is not None:
+        _history(rec, name + '.adjoint', adj_once, lambda: build().adjoint, exact, eps, cplx)
 
 
 # ------------------------------------------------------------------------------------------
@@ -521,6 +612,8 @@ def _run_fd(rec, cfg):
                                                                           c)
         # pad_const of a real array must be real
         M, b = fd.partial(shape, axis, dx, method, mode, c if mode == 'constant' else 0)
+        kept = []
+        reused = arr(garbage, is_out=True)
         for lab, flat in inputs:
             f = arr(flat)
             f0 = np.array(f, copy=True)
@@ -534,6 +627,22 @@ def _run_fd(rec, cfg):
             except Exception as e:        # noqa: B902
                 raise LibErr(what + ' f=%s' % _fmt(flat), e)
             rec.evals += 2
+            r1c = np.array(r1, copy=True)
+            kept.append((r1, r1c, flat))
+            if len(kept) <= 4:
+                # history form: the same out buffer used again (it holds the previous result)
+                try:
+                    DO.finite_diff(f, axis=axis, dx=dx, method=method, out=reused,
+                                   pad_mode=mode, pad_const=c)
+                except Exception as e:        # noqa: B902
+                    raise LibErr(what + ' f=%s, reused out' % _fmt(flat), e)
+                rec.evals += 1
+                if not np.array_equal(reused, out, equal_nan=True):
+                    rec.bad('history_differs_from_fresh',
+                            'f=%s: out buffer already used by %d earlier calls gives %s, a new '
+                            'buffer prefilled with %s gives %s'
+                            % (_fmt(flat), len(kept) - 1, _fmt(np.asarray(reused).ravel()),
+                               GARBAGE, _fmt(np.asarray(out).ravel())))
             if r2 is not out:
                 rec.bad('returned_object_is_not_out', what)
             if not np.array_equal(f, f0):
@@ -553,6 +662,13 @@ def _run_fd(rec, cfg):
                 rec.bad('inplace_differs', 'f=%s: out=None gives %s, out prefilled with %s gives '
                         '%s' % (_fmt(flat), _fmt(np.asarray(r1).ravel()), GARBAGE,
                                 _fmt(np.asarray(out).ravel())))
+        for i, (r, rc, flat) in enumerate(kept):
+            if not np.array_equal(r, rc, equal_nan=True):
+                rec.bad('kept_result_changed',
+                        'the array returned by call #%d (f=%s, out=None) was %s when returned and '
+                        'is %s after the later calls'
+                        % (i, _fmt(flat), _fmt(rc.ravel()), _fmt(np.asarray(r).ravel())))
+                break
 
 
 def _run_op(rec, cfg):
@@ -688,7 +804,11 @@ def meta(tier):
                 'vector e_k (and 1j*e_k on complex spaces), the zero vector, three dense probe '
                 'vectors and all of V^N for N <= 4 are executed out of place and in place, for '
                 'the operator, its .adjoint and its .derivative(point), and compared with the '
-                'reference stencil matrix / with each other. distinct = distinct (operator, '
+                'reference stencil matrix / with each other. History per state: returned '
+                'elements of all out-of-place calls are kept and re-read after the last call; '
+                'the used operator object and its adjoint obtained once run a 7-step in-place '
+                '(reused non-zero buffer) / out-of-place sequence against freshly built '
+                'operators. distinct = distinct (operator, '
                 'method, mode, c != 0, smallest axis size class 2|3|>=4, ndim, outcome, '
                 'executed-line signature of the anchored functions)',
         'bounds': {
